@@ -909,12 +909,20 @@ fn run_observer(chk: &xs::Check, tier: xs::Tier, pid: &'static str, report: PRep
                 if sigs(&out) != sigs(&out2) {
                     chk.machinery_error(format!("age-cap doubling changed the violation set for timeout {}", sys.tname()));
                 }
-                // second engine
+                // second engine: stateright's own BFS and xs on the SAME system - the variant without
+                // the depth-limited actions (pauses, storms, pumps), which stateright cannot be told
+                // the depth for - must agree on the number of canonical states
                 if out.found.is_empty() {
-                    let r = xs::sr::run(std::sync::Arc::new(PollSys::new(pid, c, t, 1, &v3, false, report).with_timeout_us(t_us)), xs::n_threads());
-                    chk.push("stateright_cross_check", json!({"timeout": sys.tname(), "xs_states": out.nodes.len(), "stateright_unique_states": r.unique_states, "stateright_violation": r.violation}));
-                    if r.unique_states != out.nodes.len() || r.violation {
-                        chk.machinery_error(format!("stateright disagrees with xs for timeout {}: {} vs {} states, violation={}", sys.tname(), r.unique_states, out.nodes.len(), r.violation));
+                    let plain = || {
+                        let mut s = PollSys::new(pid, c, t, 1, &v3, false, report).with_timeout_us(t_us);
+                        s.pauses.clear();
+                        s
+                    };
+                    let xs_plain = xs::explore(&plain(), &Limits::default());
+                    let r = xs::sr::run(std::sync::Arc::new(plain()), xs::n_threads());
+                    chk.push("stateright_cross_check", json!({"timeout": sys.tname(), "xs_states": xs_plain.nodes.len(), "stateright_unique_states": r.unique_states, "stateright_violation": r.violation}));
+                    if r.unique_states != xs_plain.nodes.len() || r.violation || !xs_plain.found.is_empty() {
+                        chk.machinery_error(format!("stateright disagrees with xs for timeout {}: {} vs {} states, violation={}", sys.tname(), r.unique_states, xs_plain.nodes.len(), r.violation));
                     }
                 }
             }
